@@ -112,20 +112,20 @@ fn find_prop(id: &str) -> Option<PropDef> {
 /// Multiplier applied to the base count of every sampled generator (see cmd_run).
 fn workload_scale(prop: &str, tier: Tier) -> u64 {
     let (q, t) = match prop {
-        "C01" => (12, 6),
+        "C01" => (10, 6),
         "C02" => (30, 6),
         "C03" => (60, 6),
         "C04" => (100, 6),
         "C05" => (3, 2),
-        "C06" => (25, 6),
-        "C07" => (16, 6),
+        "C06" => (20, 6),
+        "C07" => (10, 6),
         "C08" => (100, 6),
         "C09" => (200, 6),
         "C10" => (150, 6),
         "C11" => (300, 6),
-        "C12" => (50, 6),
-        "C13" => (40, 6),
-        "C14" => (25, 6),
+        "C12" => (30, 6),
+        "C13" => (25, 6),
+        "C14" => (15, 6),
         "C15" => (400, 6),
         "C16" => (1000, 6),
         "C17" => (6, 2),
